@@ -1,11 +1,24 @@
 #!/usr/bin/env python3
-"""Prints the markdown table of seeded changes (DESIGN.md section 12) from seeded/*/meta.json."""
-import json, os
-print("| seeded change | property | what it needs in order to manifest | detected by the quick check | sub-checks that flagged it |")
-print("|---|---|---|---|---|")
+"""Prints the markdown table of seeded changes (DESIGN.md section 12) from seeded/*/meta.json;
+with --write replaces the table in /verif/DESIGN.md in place."""
+import json, os, re, sys
+rows = ["| seeded change | property | what it needs in order to manifest | detected by the quick check | sub-checks that flagged it |", "|---|---|---|---|---|"]
+n = det = 0
 for sid in sorted(os.listdir("/verif/seeded")):
     mp = os.path.join("/verif/seeded", sid, "meta.json")
     if not os.path.exists(mp):
         continue
     m = json.load(open(mp))
-    print("| %s | %s | %s | %s | %s |" % (sid, m["property"], m["needs"].replace("|", "/"), {True: "yes", False: "NO", None: "?"}[m.get("detected")], ", ".join(m.get("caught_by", [])) or "-"))
+    n += 1
+    det += 1 if m.get("detected") else 0
+    rows.append("| %s | %s | %s | %s | %s |" % (sid, m["property"], m["needs"].replace("|", "/"), {True: "yes", False: "NO", None: "?"}[m.get("detected")], ", ".join(m.get("caught_by", [])) or "-"))
+if "--write" in sys.argv:
+    p = "/verif/DESIGN.md"
+    s = open(p).read()
+    a = s.index("| seeded change | property |")
+    b = s.index("\n\n", a)
+    s = s[:a] + "\n".join(rows) + s[b:]
+    open(p, "w").write(s)
+    print("%d seeded changes, %d detected" % (n, det))
+else:
+    print("\n".join(rows))
